@@ -4,7 +4,8 @@
 
      opts.Validate(): no ids -> ErrNoWorkloadIDs; no files -> ErrNoFilesToSend;
                       a file with uid = gid = mode = 0 gets mode 0755
-     for each ID (one pool task each): withWorkloadLocked(ID):
+     for each distinct ID (one pool task each; after the repair "Calcium.Send sends the
+     files once to a target listed twice"): withWorkloadLocked(ID):
          for each file: VirtualizationCopyChunkTo(ID, name, len, bytes.NewReader(clone), uid, gid, mode)
                         ch <- {ID, Path: name, Error: err}
        lock/lookup failure: ch <- {ID, Error: err}          (one message, no path)
@@ -30,14 +31,17 @@ Definition messages_of (nfiles : nat) (behs : list beh) (id : target) : list dms
   | Some o => map (fun f => mkDMsg (Some o) (Some f) (engine_err (beh_of behs o))) (seq 0 nfiles)
   end.
 
-Definition send_direct (nfiles : nat) (ids : list target) (behs : list beh) : derr * list dmsg :=
+Definition send_direct_with (dedup : bool) (nfiles : nat) (ids : list target) (behs : list beh) : derr * list dmsg :=
   match ids with
   | [] => (DNoIDs, [])
   | _ => match nfiles with
          | 0 => (DNoFiles, [])
-         | _ => (DOk, flat_map (messages_of nfiles behs) ids)
+         | _ => (DOk, flat_map (messages_of nfiles behs) (if dedup then dedupe ids else ids))
          end
   end.
+
+(* the code as it is; [send_direct_with false] is the loop before the repair (one task per listed id) *)
+Definition send_direct := send_direct_with true.
 
 (* what the engine of workload o reads of a file: a reader over the whole content *)
 Definition direct_reads {A} (b : beh) (content : list A) : list A := engine_reads b [content].
@@ -76,7 +80,7 @@ Definition occurrences (o : nat) (ids : list target) : nat :=
   length (filter (target_eqb (Some o)) ids).
 
 Definition model_drecv (c : dcase) (o : nat) (size : nat) : drecv :=
-  let k := occurrences o (dc_ids c) in
+  let k := Nat.min 1 (occurrences o (dc_ids c)) in
   match k with
   | 0 => mkDRecv 0 0 true true
   | _ => mkDRecv k (length (direct_reads (beh_of (dc_behs c) o) (repeat tt size))) true true
@@ -94,7 +98,7 @@ Definition dagree (c : dcase) : bool :=
 
 (* property reflection: exactly one result for every (distinct target, file), the file
    copied once, content complete where the engine read to EOF, requested metadata.
-   (With an id listed twice Calcium.Send copies and reports twice: known finding.) *)
+   (Before the repair an id listed twice was copied and reported twice.) *)
 Definition dok (c : dcase) : bool :=
   match dc_ids c, dc_sizes c with
   | [], _ => derr_eqb (dobs_err c) DNoIDs
